@@ -283,10 +283,16 @@ def run(ctx):
     ctx.instance(R4, "FIXTester.__init__[acceptor = AsyncFIXConnection with mirrored CompIDs]", ok,
                  "the simulated acceptor is not the library's own connection class constructed with the initiator's CompIDs swapped", loc(init))
     src = [(unparse(s_.targets[0]), unparse(s_.value)) for s_ in asg]
+    # a tuple assignment `x.a, x.b = (p, q)` gives each target its own value
+    for s_ in asg:
+        if isinstance(s_.targets[0], ast.Tuple) and isinstance(s_.value, ast.Tuple) and len(s_.targets[0].elts) == len(s_.value.elts):
+            src += [(unparse(t_), unparse(v_)) for t_, v_ in zip(s_.targets[0].elts, s_.value.elts)]
+    # SA = the acceptor's session, under whatever local
+    SA = {f"{a}._session" for a in A} | {unparse(n.targets[0]) for n in asg if unparse(n.value) in {f"{a}._session" for a in A}}
 
     def crosswise(dst, srcattr):
-        return any(t in {f"{a}._session.{dst}" for a in A} and v in {f"{s_}.{srcattr}" for s_ in SI} for t, v in src)
-    writes = [t for t, v in src if any(t == f"{a}._session.{c}" for a in A for c in ("next_num_out", "next_num_in"))]
+        return any(t in {f"{sa}.{dst}" for sa in SA} and v in {f"{s_}.{srcattr}" for s_ in SI} for t, v in src)
+    writes = [t for t, v in src if any(t == f"{sa}.{c}" for sa in SA for c in ("next_num_out", "next_num_in"))]
     cross = crosswise("next_num_out", "next_num_in") and crosswise("next_num_in", "next_num_out") and len(writes) == 2
     ctx.instance(R4, "FIXTester.__init__[counters initialised crosswise]", cross, "the acceptor's counters are not initialised crosswise from the initiator's", loc(init))
     # fed only through _process_message; no session logic of its own
